@@ -273,6 +273,18 @@ func concInput(in *Input, n *Node, fe string) any {
 		for i, e := range in.Items {
 			out[i] = concInput(e.Val, en, fe)
 		}
+		if in.Rep == "typed" && en.K == "prim" {
+			// the same list as a typed Go slice ([]int, []string, ...) instead of []any
+			ts := reflect.MakeSlice(reflect.SliceOf(goType(en)), len(out), len(out))
+			for i, v := range out {
+				rv := reflect.ValueOf(v)
+				if !rv.IsValid() || rv.Type() != goType(en) {
+					return out // not expressible as a typed slice: stays []any
+				}
+				ts.Index(i).Set(rv)
+			}
+			return ts.Interface()
+		}
 		return out
 	case "map":
 		out := map[string]any{}
